@@ -284,6 +284,25 @@ func history(t *testing.T, c *vk.C, rng *rand.Rand, i int) map[string]int {
 				}
 			case x < 72: // other metadata message types
 				tp := int64([]int{0, 2, 3, 255}[rng.IntN(4)])
+				if rng.IntN(3) == 0 {
+					// a data message whose length prefix disagrees with its own contents: shorter than the
+					// dictionary it starts with, cutting the dictionary, or leaving room for less / more data than follows.
+					// Whatever storrent makes of the bytes that follow, it drops this peer at worst.
+					ts := int64(size)
+					fr := metaFrame(v.r, refwire.Meta{Type: 1, Piece: int64(rng.IntN(nblk + 1)), TotalSize: &ts, Data: make([]byte, []int{0, 1, 100, 16384}[rng.IntN(4)])})
+					body := len(fr) - 4
+					nl := []int{2, 3, 4, 12, 20, body - 16384, body - 1, body + 1, body + 16384}[rng.IntN(9)]
+					if nl < 2 {
+						nl = 2
+					}
+					fr[0], fr[1], fr[2], fr[3] = byte(nl>>24), byte(nl>>16), byte(nl>>8), byte(nl)
+					v.r.SendRaw(fr)
+					sw.Act("%s misframed metadata message: length prefix %d for a body of %d", v.r.Name, nl, body)
+					st["misframed-metadata"]++
+					sw.Cut()
+					v.r.Close()
+					break
+				}
 				v.r.SendRaw(metaFrame(v.r, refwire.Meta{Type: tp, Piece: int64(rng.IntN(nblk + 2))}))
 			case x < 80:
 				join([]int64{int64(size), lieSizes[rng.IntN(len(lieSizes))]}[rng.IntN(2)])
